@@ -1227,10 +1227,29 @@ func (m *Dot11) ChecksumValid() bool {
 }
 
 func (m Dot11) SerializeTo(b gopacket.SerializeBuffer, opts gopacket.SerializeOptions) error {
-	buf, err := b.PrependBytes(24)
+	// length of the header written below: frame control, duration and address 1,
+	// then the fields that depend on the frame type
+	length := 10
+	switch m.Type.MainType() {
+	case Dot11TypeCtrl:
+		switch m.Type {
+		case Dot11TypeCtrlRTS, Dot11TypeCtrlPowersavePoll, Dot11TypeCtrlCFEnd, Dot11TypeCtrlCFEndAck:
+			length += 6
+		}
+	case Dot11TypeMgmt, Dot11TypeData:
+		length += 14
+	}
+	if m.Type.MainType() == Dot11TypeData && m.Flags.FromDS() && m.Flags.ToDS() {
+		length += 6
+	}
+
+	buf, err := b.PrependBytes(length)
 
 	if err != nil {
 		return err
+	}
+	for i := range buf {
+		buf[i] = 0 // addresses may be shorter than 6 octets
 	}
 
 	buf[0] = (uint8(m.Type) << 2) | m.Proto
